@@ -164,7 +164,9 @@ OnStream(mm0, ev) ==
 ----------------------------------------------------------------------------
 (* Environment: Tor.                                                        *)
 LiveC(c) == tc[c].st # "none"
-LiveS(s) == ts[s].st # "none"
+\* "ZOMBIE": Tor has reported the stream FAILED (it is gone for us) but will still report it CLOSED when it
+\* frees the connection
+LiveS(s) == ts[s].st \notin {"none", "ZOMBIE"}
 Referenced(c) == \E s \in StreamIds : LiveS(s) /\ ts[s].circ = c
 
 CircEv(c) == [id |-> c, st |-> tc'[c].st, path |-> tc'[c].path, pur |-> tc'[c].pur, bf |-> tc'[c].bf]
@@ -213,7 +215,7 @@ CircGone(c) ==
   /\ TorStep /\ UNCHANGED <<phase, ts>>
 
 StreamNew(s, st, tgt, src) ==
-  /\ ~LiveS(s) /\ st \in {"NEW", "NEWRESOLVE"} /\ tgt \in Targets /\ src \in Srcs
+  /\ ts[s].st = "none" /\ st \in {"NEW", "NEWRESOLVE"} /\ tgt \in Targets /\ src \in Srcs
   /\ ts' = [ts EXCEPT ![s] = [st |-> st, circ |-> 0, tgt |-> tgt, taddr |-> "", src |-> src]]
   /\ Deliver("S", [id |-> s, st |-> st, circ |-> 0, tgt |-> tgt, src |-> src])
   /\ TorStep /\ UNCHANGED <<phase, tc>>
@@ -244,10 +246,18 @@ Detached(s) ==
   /\ Deliver("S", [id |-> s, st |-> "DETACHED", circ |-> ts[s].circ, tgt |-> ts[s].tgt, src |-> ""])
   /\ TorStep /\ UNCHANGED <<phase, tc>>
 
-StreamGone(s, how) ==
-  /\ LiveS(s) /\ how \in {"CLOSED", "FAILED"}
-  /\ ts' = [ts EXCEPT ![s] = NoS]
+StreamGone(s, how, z) ==
+  /\ LiveS(s) /\ how \in {"CLOSED", "FAILED"} /\ z \in BOOLEAN /\ (z => how = "FAILED")
+  /\ ts' = [ts EXCEPT ![s] = IF z THEN [NoS EXCEPT !.st = "ZOMBIE", !.tgt = ts[s].tgt] ELSE NoS]
   /\ Deliver("S", [id |-> s, st |-> how, circ |-> ts[s].circ, tgt |-> ts[s].tgt, src |-> ""])
+  /\ TorStep /\ UNCHANGED <<phase, tc>>
+
+\* Tor reports a stream CLOSED that it has already reported FAILED: for us that is an unknown stream id
+\* whose first and only event is terminal - it is announced to listeners and gone again
+LateClosed(s) ==
+  /\ ts[s].st = "ZOMBIE"
+  /\ ts' = [ts EXCEPT ![s] = NoS]
+  /\ Deliver("S", [id |-> s, st |-> "CLOSED", circ |-> 0, tgt |-> ts[s].tgt, src |-> ""])
   /\ TorStep /\ UNCHANGED <<phase, tc>>
 
 \* the controller attaches: circuit-status then stream-status are loaded.  Tor's snapshot is
@@ -383,7 +393,8 @@ TorNext ==
   \/ \E s \in StreamIds, st \in {"NEW", "NEWRESOLVE"}, t \in Targets, a \in Srcs : StreamNew(s, st, t, a)
   \/ \E s \in StreamIds, c \in CircIds : SentConnect(s, c)
   \/ \E s \in StreamIds : (\E a \in RemapAddrs : Remap(s, a)) \/ Succeeded(s) \/ Detached(s)
-  \/ \E s \in StreamIds, how \in {"CLOSED", "FAILED"} : StreamGone(s, how)
+  \/ \E s \in StreamIds, how \in {"CLOSED", "FAILED"}, z \in BOOLEAN : StreamGone(s, how, z)
+  \/ \E s \in StreamIds : LateClosed(s)
 
 UserNext ==
   \/ \E l \in Listeners : AddListener(l)
